@@ -214,6 +214,7 @@ def body(ctx):
                 with zipfile.ZipFile(e2e / "arc.zip", "r") as arc:
                     members = arc.namelist()
                     df2, c2 = csv.read_csv(fname, archive=arc)
+                    raw = arc.read(fname).decode("utf-8") if fname in members else None
                 if members != [fname]:
                     ctx.finding("e2e/archive_member", "archive member is not stored under the given name", {**case, "members": members})
             else:
@@ -228,6 +229,13 @@ def body(ctx):
                 reqs.append(f"name [{enc(fname)}] {1 if compress else 0}")
                 checks.append(("name", impl, case))
                 df2, c2 = csv.read_csv(e2e / fname)
+                raw = None
+                if len(created) == 1:
+                    if compress and zipfile.is_zipfile(e2e / created[0]):
+                        with zipfile.ZipFile(e2e / created[0]) as z:
+                            raw = z.read(z.namelist()[0]).decode("utf-8")
+                    elif not compress:
+                        raw = (e2e / created[0]).read_text(encoding="utf-8")
         except Exception as e:  # noqa
             ctx.finding(f"e2e/{mode}/cannot_read_back", "a file written by write_csv cannot be read back by read_csv",
                         {**case, "error": f"{type(e).__name__}: {e}"[:300]})
@@ -255,6 +263,24 @@ def body(ctx):
                     tol = tol + 4 * np.spacing(np.abs(a))   # the decimal text is read back to the nearest double
                     if not np.all(np.abs(a - b) <= tol):
                         ctx.finding("e2e/float_precision", "numeric values differ by more than the float format precision", {**case, "column": cn, "wrote": a[:3].tolist(), "read": b[:3].tolist()})
+        # the table body through the model: the column-name line as the reader splits it, records tokenised
+        # by the model against what the real reader returned, and the model's writer against the written text
+        if raw is not None and list(df2.columns) == colnames and len(df2) == nrow:
+            lines = raw.split("\n")
+            nh = 0
+            while nh < len(lines) and lines[nh].startswith("#"):
+                nh += 1
+            colline, blines = lines[nh], lines[nh + 1: nh + 1 + nrow]
+            reqs.append(f"cols [{enc(colline + chr(10))}]")
+            checks.append(("cols", list(df2.columns), {**case, "line": colline}))
+            for r in sorted(rng.sample(range(nrow), min(nrow, 3))):
+                got = []
+                for cn in colnames:
+                    v = df2[cn].values[r]
+                    got.append(("t", str(v)) if isinstance(cols[cn][0], str) else ("n", float(v)))
+                reqs.append(f"parse [{enc(blines[r])}]")
+                checks.append(("parse", got, {**case, "line": blines[r], "row": r}))
+                ctx.count(("body", blines[r]), any(ch in blines[r] for ch in '"'), "body/" + ("quoted" if '"' in blines[r] else "plain"))
         for k, v in comment.items():
             if c2.get(k) != v:
                 ctx.finding("e2e/comment_not_returned", "a supplied header comment does not come back unchanged", {**case, "key": k, "got": c2.get(k)})
@@ -288,6 +314,7 @@ def body(ctx):
 
     # ---------------- correspondence
     replies = lean.ask(reqs)
+    extra_reqs, extra_checks = [], []
     for req, rep, chk in zip(reqs, replies, checks):
         kind, impl, case = chk
         if kind == "hdr":
@@ -301,6 +328,30 @@ def body(ctx):
             model = (decs(a), decs(b))
             if model[0] != impl[0] or model[1] != impl[1]:
                 ctx.disagree("C09/_header2comment: implementation and model differ", {**case, "impl": impl, "model": model})
+        elif kind == "cols":
+            model = decs(rep)
+            if model != impl:
+                ctx.disagree("C09/column names: the model's split of the written line differs from the names read_csv returned",
+                             {**case, "impl": impl, "model": model})
+        elif kind == "parse":
+            model = decs(rep)
+            ok = len(model) == len(impl)
+            if ok:
+                for f, (t, v) in zip(model, impl):
+                    if t == "t":
+                        ok = ok and f == v
+                    else:
+                        try:
+                            fv = float(f)
+                            ok = ok and (fv == v or abs(fv - v) <= 2 * np.spacing(abs(v)))
+                        except ValueError:
+                            ok = False
+            if not ok:
+                ctx.disagree("C09/record: the model's tokeniser and read_csv differ on a written record", {**case, "impl": impl, "model": model})
+            else:
+                # second leg: the model's writer reproduces the written text from the fields
+                extra_reqs.append(f"row {encs(model)}")
+                extra_checks.append((case["line"], case))
         elif kind == "check":
             if rep != impl:
                 ctx.disagree("C09/_check_name: implementation and model differ", {**case, "impl": impl, "model": rep})
@@ -311,9 +362,12 @@ def body(ctx):
             # the model's reader must open what the writer created (the real reader succeeded above)
             if opened[0] == "none":
                 ctx.disagree("C09/read target: model cannot open the written file", {**case, "model": rep})
+    for rep, (line, case) in zip(lean.ask(extra_reqs) if extra_reqs else [], extra_checks):
+        if dec(rep) != line:
+            ctx.disagree("C09/record writer: the model's quoting differs from the text to_csv wrote", {**case, "impl": line, "model": dec(rep)})
     shutil.rmtree(work, ignore_errors=True)
     ctx.extra["rule"] = __doc__.split("Cases:")[1].strip()
-    ctx.assumptions += ["DataFrame.to_csv / pandas.read_csv / zipfile / the file system are external (exercised end-to-end, not modelled)",
+    ctx.assumptions += ["DataFrame.to_csv / pandas.read_csv are external: their record quoting and tokenising are modelled (writeRow / parseRow / splitCols) and compared on the written text; number formatting, type inference, zipfile and the file system are exercised end-to-end only",
                         "regular expressions are modelled for single-line ASCII header elements"]
 
 
